@@ -29,12 +29,9 @@ def match_known(pid, engine, unit, failed_desc, known):
     for k in known.get("open", []):
         if pid not in k.get("properties", [k.get("property")]):
             continue
-        if k.get("engine", engine) != engine:
-            continue
-        if k.get("unit") != unit:
-            continue
-        if k.get("match", "") in failed_desc:
-            return k
+        for ob in k.get("obligations", []):
+            if ob.get("engine") == engine and ob.get("unit") == unit and ob.get("match", "") in failed_desc:
+                return k
     return None
 
 
